@@ -277,10 +277,16 @@ def run(ctx):
            mod, idx_stmt or fn)
     # sign handling: '-' prefix -> sign -1 and stripped; else +1
     sign_ok = False
-    for stmt in fn.body:
+    for i_, stmt in enumerate(fn.body):
         if isinstance(stmt, ast.If) and 'startswith' in norm(stmt.test) and "'-'" in norm(stmt.test).replace('"', "'"):
-            env_t = ConstEval({}).run(stmt.body)
-            env_f = ConstEval({}).run(stmt.orelse)
+            # the value the sign has on either branch, starting from what the
+            # statements in front of the test left in it (a default set first
+            # and overwritten for '-' is the same as an else branch)
+            before = ConstEval({}).run([s_ for s_ in fn.body[:i_] if isinstance(s_, ast.Assign)
+                                        and all(isinstance(t_, ast.Name) for t_ in s_.targets)])
+            before = {k_: v_ for k_, v_ in before.items() if isinstance(v_, (int, float))}
+            env_t = ConstEval(dict(before)).run(stmt.body)
+            env_f = ConstEval(dict(before)).run(stmt.orelse)
             strip = any(isinstance(s, ast.Assign) and norm(s.targets[0]) == str_var
                         and norm(s.value) == str_var + '[1:]' for s in stmt.body)
             sign_ok = env_t.get(sign_var) == -1 and env_f.get(sign_var) == 1 and strip
